@@ -385,7 +385,16 @@ func decode(stream []byte, cfg RecvConfig) (out Outcome) {
 			if cfg.ReadLimit > 0 && (wire > cfg.ReadLimit || wire < 0) && cfg.IgnoreRule != "read-limit-exceeded" {
 				fail("read-limit-exceeded", 1009)
 				if err != nil {
-					out.Ambiguous = true
+					// The frame is also cut short. A reader that counts bytes as they arrive notices
+					// the truncation first, unless the bytes that did arrive already exceed the limit.
+					hl := 2 + extNeed
+					if h.Masked {
+						hl += 4
+					}
+					arrived := (wire - int64(declLen)) + int64(len(rest)-hl)
+					if arrived <= cfg.ReadLimit {
+						out.Ambiguous = true
+					}
 				}
 				return out
 			}
